@@ -4,7 +4,11 @@ open KafVerif KafVerif.GoStr KafVerif.Idoc
 
 /-! Line-protocol driver for C45: `doc <items> <partners> <statuses> <dates> <tok;tok;…>`
 (lists: comma separated hex, `_` = empty list; tokens: `S<name>[:k=v,…]` start, `s…` start written
-self-closing, `T<hex>` text, `C<hex>` CDATA text, `K<hex>` comment, `P` prolog, `E` end). -/
+self-closing, `T<hex>` text, `C<hex>` CDATA text, `K<hex>` comment, `P` prolog, `E` end).
+`call <mode> <items> … <toks>` is `doc` with a prescribed way of handing the configuration over
+(fresh / reuse / inplace / same buffers — caller-side aliasing only); the model is a pure function
+of the call's own configuration VALUE and document (`Idoc.callStep`: the package has no state), so
+the mode is ignored here and any cross-call state in the implementation shows up as a line diff. -/
 
 def parseList (s : String) : Option (List Str) :=
   if s == "_" then some [] else (s.splitOn ",").mapM runesOfHex
@@ -50,16 +54,20 @@ def showRes (r : Res) : String :=
   let (root, ha) := match r.header with | some (n, a) => (hexOfRunes n, showMap a) | none => ("-", "")
   s!"ok root={root} hattrs={ha} n={r.segments.length} segs={showSegs r.segments} items={showSegs r.items} partners={showSegs r.partners} statuses={showSegs r.statuses} dates={showSegs r.dates}"
 
+def docLine (old : Bool) (i p s d ts : String) : String :=
+  match parseList i, parseList p, parseList s, parseList d, ((ts.splitOn ";").mapM parseTok) with
+  | some i, some p, some s, some d, some tl =>
+    let cfg : Cfg := { items := i, partners := p, statuses := s, dates := d }
+    let toks := tl.flatten
+    showRes (if old then explodeOld cfg toks else (callStep () (cfg, toks)).2)
+  | _, _, _, _, _ => "bad-op"
+
 def stepLine (old : Bool) (ws : List String) : Bool × String :=
   match ws with
   | ["mode", m] => (m == "old", "ok")
-  | ["doc", i, p, s, d, ts] =>
-    match parseList i, parseList p, parseList s, parseList d, ((ts.splitOn ";").mapM parseTok) with
-    | some i, some p, some s, some d, some tl =>
-      let cfg : Cfg := { items := i, partners := p, statuses := s, dates := d }
-      let toks := tl.flatten
-      (old, showRes (if old then explodeOld cfg toks else explode cfg toks))
-    | _, _, _, _, _ => (old, "bad-op")
+  | ["doc", i, p, s, d, ts] => (old, docLine old i p s d ts)
+  | ["call", m, i, p, s, d, ts] =>
+    if m == "fresh" || m == "reuse" || m == "inplace" || m == "same" then (old, docLine old i p s d ts) else (old, "bad-op")
   | "raw" :: _ => (old, "skip")
   | _ => (old, "bad-op")
 
